@@ -19,6 +19,17 @@ class PreErr(Exception):
         self.code = code
 
 
+class FalsyStageErr(StageErr):
+    """a falsy exception object (container-like): still a failure"""
+    def __len__(self):
+        return 0
+
+
+class FalsyPreErr(PreErr):
+    def __bool__(self):
+        return False
+
+
 def payload_key(v):
     """the small integer a request carries, whatever padding travels with it"""
     if isinstance(v, tuple) and len(v) == 2 and isinstance(v[1], (bytes, bytearray)):
@@ -51,13 +62,13 @@ class PW(Worker):
     def _pre(self, x):
         key = payload_key(x)
         if isinstance(key, int) and key in self._pre_fail:
-            raise PreErr(self._pre_fail[key])
+            raise (FalsyPreErr if self._pre_fail[key] % 4 == 1 else PreErr)(self._pre_fail[key])
         return x
 
     def _one(self, x):
         key = payload_key(x)
         if isinstance(key, int) and key in self._fail:
-            raise StageErr(self._fail[key])
+            raise (FalsyStageErr if self._fail[key] % 4 == 3 else StageErr)(self._fail[key])
         y = leaf_fn(self._k, x)
         if self._shrink and isinstance(y, tuple):
             y = y[0]
